@@ -1,1 +1,435 @@
-//! (to be filled in)
+//! NumOracle: the exact mathematical value of numeric literals (own unsigned bignum), and the
+//! reading of C05's accuracy clause that the checks use (DESIGN 3.6).
+
+use crate::rv::{NumLit, RV};
+use std::cmp::Ordering;
+
+#[derive(Clone, Debug, PartialEq, Eq)]
+pub struct Big(Vec<u32>); // little endian, no trailing zero limbs
+
+impl Big {
+    pub fn zero() -> Big {
+        Big(Vec::new())
+    }
+    pub fn from_u64(x: u64) -> Big {
+        let mut b = Big(vec![x as u32, (x >> 32) as u32]);
+        b.trim();
+        b
+    }
+    fn trim(&mut self) {
+        while self.0.last() == Some(&0) {
+            self.0.pop();
+        }
+    }
+    pub fn is_zero(&self) -> bool {
+        self.0.is_empty()
+    }
+    pub fn mul_small(&mut self, m: u32) {
+        let mut carry = 0u64;
+        for l in self.0.iter_mut() {
+            let v = *l as u64 * m as u64 + carry;
+            *l = v as u32;
+            carry = v >> 32;
+        }
+        if carry > 0 {
+            self.0.push(carry as u32);
+        }
+        self.trim();
+    }
+    pub fn add_small(&mut self, a: u32) {
+        let mut carry = a as u64;
+        for l in self.0.iter_mut() {
+            if carry == 0 {
+                break;
+            }
+            let v = *l as u64 + carry;
+            *l = v as u32;
+            carry = v >> 32;
+        }
+        if carry > 0 {
+            self.0.push(carry as u32);
+        }
+    }
+    /// digits in the given radix (2..=16)
+    pub fn from_digits(digits: &str, radix: u32) -> Big {
+        let mut b = Big::zero();
+        for c in digits.chars() {
+            let d = c.to_digit(radix).expect("digit of radix");
+            b.mul_small(radix);
+            b.add_small(d);
+        }
+        b
+    }
+    pub fn shl(&mut self, bits: usize) {
+        if self.is_zero() || bits == 0 {
+            return;
+        }
+        let limbs = bits / 32;
+        let rem = bits % 32;
+        if rem > 0 {
+            let mut carry = 0u32;
+            for l in self.0.iter_mut() {
+                let v = (*l as u64) << rem | carry as u64;
+                *l = v as u32;
+                carry = (v >> 32) as u32;
+            }
+            if carry > 0 {
+                self.0.push(carry);
+            }
+        }
+        if limbs > 0 {
+            let mut v = vec![0u32; limbs];
+            v.extend_from_slice(&self.0);
+            self.0 = v;
+        }
+    }
+    pub fn mul_pow10(&mut self, mut k: u64) {
+        while k >= 9 {
+            self.mul_small(1_000_000_000);
+            k -= 9;
+        }
+        if k > 0 {
+            self.mul_small(10u32.pow(k as u32));
+        }
+    }
+    pub fn cmp(&self, other: &Big) -> Ordering {
+        if self.0.len() != other.0.len() {
+            return self.0.len().cmp(&other.0.len());
+        }
+        for i in (0..self.0.len()).rev() {
+            if self.0[i] != other.0[i] {
+                return self.0[i].cmp(&other.0[i]);
+            }
+        }
+        Ordering::Equal
+    }
+    /// |self - other|
+    pub fn abs_diff(&self, other: &Big) -> Big {
+        let (a, b) = if self.cmp(other) == Ordering::Less { (other, self) } else { (self, other) };
+        let mut out = a.0.clone();
+        let mut borrow = 0i64;
+        for i in 0..out.len() {
+            let mut v = out[i] as i64 - borrow - *b.0.get(i).unwrap_or(&0) as i64;
+            if v < 0 {
+                v += 1 << 32;
+                borrow = 1;
+            } else {
+                borrow = 0;
+            }
+            out[i] = v as u32;
+        }
+        let mut r = Big(out);
+        r.trim();
+        r
+    }
+    pub fn bits(&self) -> usize {
+        match self.0.last() {
+            None => 0,
+            Some(l) => (self.0.len() - 1) * 32 + (32 - l.leading_zeros() as usize),
+        }
+    }
+    pub fn to_u128(&self) -> Option<u128> {
+        if self.0.len() > 4 {
+            return None;
+        }
+        let mut v = 0u128;
+        for (i, l) in self.0.iter().enumerate() {
+            v |= (*l as u128) << (32 * i);
+        }
+        Some(v)
+    }
+    pub fn pow2(k: usize) -> Big {
+        let mut b = Big::from_u64(1);
+        b.shl(k);
+        b
+    }
+}
+
+/// Decompose a finite non-zero double as m * 2^q with m an integer < 2^53.
+fn decompose(f: f64) -> (u64, i32) {
+    let bits = f.abs().to_bits();
+    let exp = ((bits >> 52) & 0x7ff) as i32;
+    let frac = bits & ((1u64 << 52) - 1);
+    if exp == 0 {
+        (frac, -1074)
+    } else {
+        (frac | (1u64 << 52), exp - 1075)
+    }
+}
+
+/// The exact value of a literal as D * 10^e10 (radix 10 with fraction/exponent) or D (integers
+/// of any radix).
+pub struct Exact {
+    pub neg: bool,
+    pub d: Big,
+    pub e10: i64,
+    pub is_integer_literal: bool,
+    pub sig_digits: usize,
+}
+
+pub fn exact_of(lit: &NumLit) -> Exact {
+    let mut digits = lit.int_digits.clone();
+    let mut e10: i64 = 0;
+    if let Some(f) = &lit.frac_digits {
+        digits.push_str(f);
+        e10 -= f.len() as i64;
+    }
+    if let Some(e) = lit.exp {
+        e10 = e10.saturating_add(e);
+    }
+    let d = Big::from_digits(&digits, lit.radix);
+    let stripped = digits.trim_start_matches('0');
+    Exact { neg: lit.neg, d, e10, is_integer_literal: lit.frac_digits.is_none() && lit.exp.is_none(), sig_digits: stripped.len() }
+}
+
+#[derive(Clone, Debug, PartialEq)]
+pub enum Expect {
+    /// must be exactly this integer
+    Int(i128),
+    /// must be a float; judged by `float_ok`
+    Float,
+    /// true value >= 2^1024: must be rejected
+    OutOfRange,
+    /// true value in (f64::MAX, 2^1024): f64::MAX or an error, never inf/NaN
+    Band,
+}
+
+/// Compare D*10^e10 with 2^k. Returns ordering of the literal's magnitude relative to 2^k.
+fn cmp_pow2(ex: &Exact, k: usize) -> Ordering {
+    if ex.d.is_zero() {
+        return Ordering::Less;
+    }
+    // quick bounds through decimal digit counts
+    let approx_log10 = ex.d.bits() as f64 * 0.30103 + ex.e10 as f64;
+    let target = k as f64 * 0.30103;
+    if approx_log10 > target + 2.0 {
+        return Ordering::Greater;
+    }
+    if approx_log10 < target - 2.0 {
+        return Ordering::Less;
+    }
+    let mut lhs = ex.d.clone();
+    let mut rhs = Big::pow2(k);
+    if ex.e10 >= 0 {
+        lhs.mul_pow10(ex.e10 as u64);
+    } else {
+        rhs.mul_pow10((-ex.e10) as u64);
+    }
+    lhs.cmp(&rhs)
+}
+
+/// f64::MAX = (2^53 - 1) * 2^971
+fn cmp_f64_max(ex: &Exact) -> Ordering {
+    if ex.d.is_zero() {
+        return Ordering::Less;
+    }
+    let approx_log10 = ex.d.bits() as f64 * 0.30103 + ex.e10 as f64;
+    if approx_log10 > 311.0 {
+        return Ordering::Greater;
+    }
+    if approx_log10 < 305.0 {
+        return Ordering::Less;
+    }
+    let mut lhs = ex.d.clone();
+    let mut rhs = Big::from_u64((1u64 << 53) - 1);
+    rhs.shl(971);
+    if ex.e10 >= 0 {
+        lhs.mul_pow10(ex.e10 as u64);
+    } else {
+        rhs.mul_pow10((-ex.e10) as u64);
+    }
+    lhs.cmp(&rhs)
+}
+
+pub fn expect(lit: &NumLit) -> Expect {
+    let ex = exact_of(lit);
+    if ex.is_integer_literal {
+        if let Some(v) = ex.d.to_u128() {
+            if !ex.neg && v <= u64::MAX as u128 {
+                return Expect::Int(v as i128);
+            }
+            if ex.neg && v <= 1u128 << 63 {
+                return Expect::Int(-(v as i128));
+            }
+        }
+    }
+    if cmp_pow2(&ex, 1024) != Ordering::Less {
+        return Expect::OutOfRange;
+    }
+    if cmp_f64_max(&ex) == Ordering::Greater {
+        return Expect::Band;
+    }
+    Expect::Float
+}
+
+/// The correctly rounded double of the literal's magnitude, through std's parser (trusted base).
+pub fn correctly_rounded(lit: &NumLit) -> f64 {
+    let ex = exact_of(lit);
+    if lit.radix == 10 {
+        let mut digits = lit.int_digits.clone();
+        if let Some(f) = &lit.frac_digits {
+            digits.push_str(f);
+        }
+        let e = ex.e10.clamp(-100_000, 100_000);
+        format!("{}e{}", digits, e).parse::<f64>().unwrap()
+    } else {
+        // exact integer in another radix: round D to 53 bits, ties to even
+        let bits = ex.d.bits();
+        if bits <= 64 {
+            return ex.d.to_u128().unwrap() as u64 as f64;
+        }
+        // take the top 64 bits plus a sticky bit
+        let shift = bits - 64;
+        let mut top: u64 = 0;
+        let mut sticky = false;
+        for i in 0..bits {
+            let bit = (ex.d.0[i / 32] >> (i % 32)) & 1;
+            if i >= shift {
+                top |= (bit as u64) << (i - shift);
+            } else if bit == 1 {
+                sticky = true;
+            }
+        }
+        // top has its MSB set; round to 53 bits
+        let keep = top >> 11;
+        let rem = top & 0x7ff;
+        let half = 0x400;
+        let mut m = keep;
+        if rem > half || (rem == half && (sticky || keep & 1 == 1)) {
+            m += 1;
+        }
+        (m as f64) * 2f64.powi((shift + 11) as i32)
+    }
+}
+
+/// Is |f - x| <= 2^-50 * |x| (exact arithmetic), x = D * 10^e10 > 0, f > 0 finite.
+fn within_rel_2_50(ex: &Exact, f: f64) -> bool {
+    let (m, q) = decompose(f);
+    let mut x = ex.d.clone();
+    let mut fb = Big::from_u64(m);
+    if ex.e10 >= 0 {
+        x.mul_pow10(ex.e10 as u64);
+    } else {
+        fb.mul_pow10((-ex.e10) as u64);
+    }
+    if q >= 0 {
+        fb.shl(q as usize);
+    } else {
+        x.shl((-q) as usize);
+    }
+    let mut diff = fb.abs_diff(&x);
+    diff.shl(50);
+    diff.cmp(&x) != Ordering::Greater
+}
+
+fn ulp_distance(a: f64, b: f64) -> u64 {
+    // both finite, same sign assumed non-negative
+    let (x, y) = (a.to_bits() as i64, b.to_bits() as i64);
+    (x - y).unsigned_abs()
+}
+
+/// Does the reading of C05's accuracy clause demand the correctly rounded result?
+pub fn demands_exact(lit: &NumLit, nofast: bool) -> bool {
+    let ex = exact_of(lit);
+    if ex.d.is_zero() {
+        return true;
+    }
+    if ex.is_integer_literal {
+        // an out-of-range integer literal only has to approximate its value
+        return false;
+    }
+    let fits53 = ex.d.bits() <= 53;
+    let written = lit.exp.unwrap_or(0);
+    if fits53 && ex.e10.abs() <= 22 && written.abs() <= 22 {
+        return true;
+    }
+    if nofast && ex.sig_digits <= 19 && ex.d.bits() <= 64 {
+        return true;
+    }
+    false
+}
+
+/// Judge a float result for a literal whose `expect` is Float or Band.
+pub fn float_ok(lit: &NumLit, f: f64, nofast: bool) -> Result<(), String> {
+    if !f.is_finite() {
+        return Err(format!("non-finite result {:?}", f));
+    }
+    let ex = exact_of(lit);
+    if ex.d.is_zero() {
+        let want = if lit.neg { -0.0f64 } else { 0.0 };
+        return if f == 0.0 && (f.is_sign_negative() == want.is_sign_negative()) { Ok(()) } else { Err(format!("zero literal read as {:?}", f)) };
+    }
+    if f != 0.0 && (f < 0.0) != lit.neg {
+        return Err(format!("wrong sign: {:?}", f));
+    }
+    let cr = correctly_rounded(lit);
+    let fa = f.abs();
+    if demands_exact(lit, nofast) {
+        return if fa.to_bits() == cr.to_bits() { Ok(()) } else { Err(format!("not correctly rounded: got {:?}, correctly rounded magnitude is {:?}", f, cr)) };
+    }
+    if cr.is_infinite() {
+        // band below 2^1024 (expect() has excluded >= 2^1024): only f64::MAX is acceptable
+        return if fa == f64::MAX { Ok(()) } else { Err(format!("got {:?} for a value just above f64::MAX", f)) };
+    }
+    if cr < f64::MIN_POSITIVE {
+        // subnormal range: relative accuracy is unsatisfiable; allow two subnormal spacings
+        return if ulp_distance(fa, cr) <= 2 { Ok(()) } else { Err(format!("subnormal result {:?} is more than two spacings away from {:?}", f, cr)) };
+    }
+    if f == 0.0 {
+        return Err(format!("non-zero literal of normal magnitude read as zero (correctly rounded: {:?})", cr));
+    }
+    let d = ulp_distance(fa, cr);
+    if d <= 3 {
+        return Ok(());
+    }
+    if d > 9 {
+        return Err(format!("{} ulps away from the correctly rounded {:?}: got {:?}", d, cr, f));
+    }
+    if within_rel_2_50(&ex, fa) {
+        Ok(())
+    } else {
+        Err(format!("relative error exceeds 2^-50: got {:?}, correctly rounded {:?}", f, cr))
+    }
+}
+
+/// Full judgement of a number produced for a literal.
+pub fn literal_matches(lit: &NumLit, actual: &RV, nofast: bool) -> Result<(), String> {
+    match expect(lit) {
+        Expect::Int(v) => match actual {
+            RV::Int(a) if *a == v => Ok(()),
+            other => Err(format!("expected the integer {}, got {}", v, other)),
+        },
+        Expect::Float | Expect::Band => match actual {
+            RV::Float(f) => float_ok(lit, *f, nofast),
+            other => Err(format!("expected a float, got {}", other)),
+        },
+        Expect::OutOfRange => Err(format!("literal exceeds the range of a double and must be rejected, got {}", actual)),
+    }
+}
+
+/// C01's float clause: does reading back `printed` (the shortest form of `orig`) have to give
+/// `orig` bit for bit? Always in the non-fast build; in the default build when the shortest form has
+/// at most 15 significant digits and |scientific exponent| <= 22 (and the literal-level reading of
+/// C05 agrees); otherwise C05 accuracy.
+pub fn roundtrip_float_ok(orig: f64, lit: &NumLit, got: f64, nofast: bool) -> Result<(), String> {
+    if nofast {
+        return if got.to_bits() == orig.to_bits() { Ok(()) } else { Err(format!("non-fast build must be bit-exact: printed {:?}, read {:?}", orig, got)) };
+    }
+    let ex = exact_of(lit);
+    let sci_exp = ex.e10 + ex.sig_digits as i64 - 1;
+    if ex.sig_digits <= 15 && sci_exp.abs() <= 22 && demands_exact(lit, false) {
+        return if got.to_bits() == orig.to_bits() { Ok(()) } else { Err(format!("bit-exact region: printed {:?}, read {:?}", orig, got)) };
+    }
+    float_ok(lit, got, false)
+}
+
+#[cfg(test)]
+mod tests {
+    use super::*;
+    #[test]
+    fn big_basics() {
+        let b = Big::from_digits("18446744073709551616", 10);
+        assert_eq!(b.bits(), 65);
+        assert_eq!(b.cmp(&Big::pow2(64)), Ordering::Equal);
+    }
+}
